@@ -530,12 +530,12 @@ func c09Safe(keyPrefix string, fn func() *explore.Fail) (f *explore.Fail) {
 // ---- report accumulation --------------------------------------------------------------
 
 type c09Acc struct {
-	out                                    *explore.OutcomeSet
-	exh, red, none, capped                 int64
-	devs                                   [4]int64
-	plain                                  int64 // configurations of parts without draws
-	maxDraws                               int
-	samples                                []any
+	out                    *explore.OutcomeSet
+	exh, red, none, capped int64
+	devs                   [4]int64
+	plain                  int64 // configurations of parts without draws
+	maxDraws               int
+	samples                []any
 }
 
 func c09NewAcc() *c09Acc { return &c09Acc{out: explore.NewOutcomeSet()} }
